@@ -88,8 +88,11 @@ def _fsum_norm(row):
 def body_spherical(case):
     dreye = _dreye()
     X = np.asarray(case["X"], dtype=float)
-    X0 = X.copy()
     form = (None, None, "list", "int")[int(abs(float(X.sum())) * 1e6) % 4 if np.isfinite(X.sum()) else 0]     # argument form derived from the case
+    if form == "int" and np.all(np.isfinite(X)) and float(np.max(np.abs(X))) < 1e4:
+        # whole numbers, also large ones (counts of 1e5 .. 1e10: their squares do not fit every integer type)
+        X = np.round(X) * float(10 ** ((int(abs(float(np.round(X).sum()))) % 3) * 5))
+    X0 = X.copy()
     with calling(f"cartesian_to_spherical (argument as {form or 'float array'})"):
         with np.errstate(all="ignore"):
             Y = np.asarray(dreye.cartesian_to_spherical(gens.as_form(X, form) if form else X))
